@@ -15,7 +15,10 @@ Configurations (A7): (K, G) in {(1, SE2), (2, SE2), (3, SE2), (2, SO3), (3, Vect
             utils::pairwise_transform_view is executed (rule R5: its std::ranges::view_interface base, which clang 14 cannot
             instantiate against libstdc++ 12, is replaced by std::ranges::view_base; only unused convenience members are lost)
             and the result is the same operation DAG as the reference built from rminus / composition / cspline_eval_vs  (struct)
-cspline_eval_dg_dgs (chain rule through dr_expinv / dl_expinv) is NOT under contract: listed as unverified.
+  dgs       cspline_eval_dg_dgs == the chain rule through the differences built from the public dr_expinv / dl_expinv (C04), Ad (C03) and
+            cspline_eval_dg_dvs:  -dX_dvs[j] dl_expinv(v_j) into block j, +dX_dvs[j] dr_expinv(v_j) into block j+1, Ad((g_0^-1 g)^-1) into
+            block 0 of the value Jacobian (the code uses dl_expinv = dr_expinv - ad).  K = 1 on SE2, K = 3 / 6 on vectors; K >= 2 on
+            non-commutative groups is undecided (unverified).
 """
 import random
 from fractions import Fraction
@@ -58,6 +61,24 @@ def tu():
          '    put(l, cspline_eval_gs<K>(std::span<const G>(g.data(), K + 1), basis(), u, v1, a1)); tput(lv, v1); tput(la, a1);\n'
          '    Eigen::Matrix<double, N, K> V; for (int j = 0; j < K; ++j) { V.col(j) = rminus(g[j + 1], g[j]); }\n'
          '    put(r, composition(g[0], cspline_eval_vs<K, G>(V.colwise(), basis(), u, v2, a2))); tput(rv, v2); tput(ra, a2); }\n'
+         '  // cspline_eval_dg_dgs under contract (l*) next to the chain rule through the differences built from public operations (r*):\n'
+         '  //   d v_j / d g_j = dr_expinv(v_j),  d v_j / d g_(j-1) = -dl_expinv(v_j)  (C04),  d g / d g_0 |direct = Ad((g_0^-1 g)^-1)  (C03)\n'
+         '  template<int RR> static void dgs(const double*c, double u, double*l, double*lv, double*la, double*r, double*rv, double*ra){\n'
+         '    std::array<G, K + 1> g; for (int i = 0; i <= K; ++i) { g[i] = get(c + i * RR); }\n'
+         '    SplineJacobian<G, K> dv1, da1;\n'
+         '    const SplineJacobian<G, K> d1 = cspline_eval_dg_dgs<K>(std::span<const G>(g.data(), K + 1), basis(), u, dv1, da1);\n'
+         '    Eigen::Map<SplineJacobian<G, K>> L0(l); L0 = d1; Eigen::Map<SplineJacobian<G, K>> L1(lv); L1 = dv1; Eigen::Map<SplineJacobian<G, K>> L2(la); L2 = da1;\n'
+         '    Eigen::Matrix<double, N, K> V; for (int j = 0; j < K; ++j) { V.col(j) = rminus(g[j + 1], g[j]); }\n'
+         '    SplineJacobian<G, K - 1> dvv, dav; const SplineJacobian<G, K - 1> dgv = cspline_eval_dg_dvs<K, G>(V.colwise(), basis(), u, dvv, dav);\n'
+         '    const G val = cspline_eval_vs<K, G>(V.colwise(), basis(), u);\n'
+         '    SplineJacobian<G, K> R0, R1, R2; R0.setZero(); R1.setZero(); R2.setZero();\n'
+         '    for (int j = 0; j < K; ++j) {\n'
+         '      const Eigen::Matrix<double, N, N> Dr = dr_expinv<G>(V.col(j)), Dl = dl_expinv<G>(V.col(j));\n'
+         '      R0.template middleCols<N>(j * N) -= dgv.template middleCols<N>(j * N) * Dl; R0.template middleCols<N>((j + 1) * N) += dgv.template middleCols<N>(j * N) * Dr;\n'
+         '      R1.template middleCols<N>(j * N) -= dvv.template middleCols<N>(j * N) * Dl; R1.template middleCols<N>((j + 1) * N) += dvv.template middleCols<N>(j * N) * Dr;\n'
+         '      R2.template middleCols<N>(j * N) -= dav.template middleCols<N>(j * N) * Dl; R2.template middleCols<N>((j + 1) * N) += dav.template middleCols<N>(j * N) * Dr; }\n'
+         '    R0.template leftCols<N>() += Ad(inverse(val));\n'
+         '    Eigen::Map<SplineJacobian<G, K>> O0(r); O0 = R0; Eigen::Map<SplineJacobian<G, K>> O1(rv); O1 = R1; Eigen::Map<SplineJacobian<G, K>> O2(ra); O2 = R2; }\n'
          '};\n')
     for (K, g) in CONFIGS:
         ty = GROUPS[g][0]
@@ -65,6 +86,7 @@ def tu():
             nm = "cs_%d_%s_%s" % (K, g, bn)
             t += 'extern "C" void %s_vs(const double*v,double u,double*g,double*ve,double*ac,double*je){ CS<%d, %s, PolynomialBasis::%s>::vs(v,u,g,ve,ac,je); }\n' % (nm, K, ty, b)
             t += 'extern "C" void %s_gs(const double*c,double u,double*l,double*lv,double*la,double*r,double*rv,double*ra){ CS<%d, %s, PolynomialBasis::%s>::gs<%d>(c,u,l,lv,la,r,rv,ra); }\n' % (nm, K, ty, b, GROUPS[g][1].rep)
+            t += 'extern "C" void %s_dgs(const double*c,double u,double*l,double*lv,double*la,double*r,double*rv,double*ra){ CS<%d, %s, PolynomialBasis::%s>::dgs<%d>(c,u,l,lv,la,r,rv,ra); }\n' % (nm, K, ty, b, GROUPS[g][1].rep)
             t += 'extern "C" void %s_dvs(const double*v,double u,double*dg,double*dv,double*da){ CS<%d, %s, PolynomialBasis::%s>::dvs(v,u,dg,dv,da); }\n' % (nm, K, ty, b)
     return t
 
@@ -240,7 +262,7 @@ def run_config(K, g, tier="quick", seed=0, canary=False):
                                         coef_tol=Fraction(1, 10 ** 12), signvars=sv,
                                         subst=(lambda ctx, uval=uval: {"u": poly.RF(ctx.const_lp(uval))}))
         guarded(res, tag + "::eval_dg_dvs", go_dvs)
-    res.unverified += ["cspline_eval_dg_dgs (chain rule from differences to control points): not under contract"]
+    res.unverified += ["cspline_eval_dg_dgs for K >= 2 on non-commutative groups (normal form does not finish)"]
     return res
 
 
@@ -310,10 +332,73 @@ def run_gs(K, g, tier="quick", seed=0):
     return res
 
 
+def run_dgs(K, g, tier="quick", seed=0, parts=("dg_dgs", "dvel_dgs", "dacc_dgs")):
+    """cspline_eval_dg_dgs == the chain rule through the control-point differences (public dr_expinv / dl_expinv / Ad / dg_dvs)"""
+    ty, G = GROUPS[g]
+    res = Results(PROP)
+    xt = guarded(res, "%s/extract" % PROP, cs_extract)
+    if xt is None:
+        return res
+    isvec = isinstance(G, G_.Rn)
+    N, R = G.dof, G.rep
+    rng = random.Random(seed + 37 * K)
+    nj = N * N * (K + 1)
+    for bn in ("bern", "bspl"):
+        tag = "%s/cspline<%d,%s,%s>" % (PROP, K, ty, bn)
+
+        def go(bn=bn, tag=tag):
+            fn = "cs_%d_%s_%s_dgs" % (K, g, bn)
+            bufs = [("c", (K + 1) * R, "d"), ("u", None, "d"), ("l", nj, "d"), ("lv", nj, "d"), ("la", nj, "d"), ("r", nj, "d"), ("rv", nj, "d"), ("ra", nj, "d")]
+            envs = []
+            for _ in range(6 if tier == "quick" else 20):
+                e = ctrl_env(G, K, rng, isvec)
+                e["u"] = rng.choice([0.5, 0.25, rng.uniform(0.05, 0.95)])
+                envs.append(e)
+            views = xt.run_concolic(fn, bufs, envs)
+            res.functions.add("smooth::cspline_eval_dg_dgs<%d,%s>" % (K, ty))
+
+            def samp(rn):
+                e = ctrl_env(G, K, rn, isvec)
+                e["u"] = rn.uniform(0.05, 0.95)
+                return e
+
+            def hyp(ctx):
+                if not isvec:
+                    for i in range(K + 1):
+                        for grp in G.unit:
+                            engine.unit_relation(ctx, ["c%d" % (i * R + k) for k in grp])
+            for k, pv in enumerate(views):
+                res.paths += 1
+                oid = "%s::eval_dg_dgs/p%d" % (tag, k)
+                if pv.status != "ok":
+                    res.add(oid, "refuted", "struct", 0.0, "%s: %s" % (pv.status, pv.detail[:200]), extra=dict(confirmed=False))
+                    continue
+                if pv.cls not in ("closed", "plain"):
+                    continue
+                for nm, a_, b_ in (("dg_dgs", "l", "r"), ("dvel_dgs", "lv", "rv"), ("dacc_dgs", "la", "ra")):
+                    if nm not in parts:
+                        continue
+                    prs = [("%s[%d]" % (nm, i), x, y) for i, (x, y) in enumerate(zip(pv.out(a_), pv.out(b_)))]
+                    for e_, x, y in prs:
+                        if x is y:
+                            res.add("%s/chain-rule/%s" % (oid, e_), "proved", "struct", 0.0, "identical operation DAG")
+                    rest = [(e_, x, y) for e_, x, y in prs if x is not y]
+                    if rest:
+                        # generalisation: large shared sub-DAGs (the dg_dvs blocks) become variables; for the value Jacobian the sin/cos of
+                        # the exponentials must stay interpreted (Ad of the inverse needs their unit relation)
+                        prove_pairs(res, oid + "/chain-rule", rest, hyp, samp, pv, (xt, fn, bufs), seed=seed, cut=("call", "div"), cut_size=300,
+                                    coef_tol=Fraction(1, 10 ** 12), budget=240)
+        guarded(res, tag + "::eval_dg_dgs", go)
+    return res
+
+
 def tasks(tier, seed=0):
-    cfgs = [(1, "se2"), (2, "se2"), (3, "v2"), (6, "v1")] if tier == "quick" else CONFIGS
+    # thorough adds (3, SE2); (2, SO3): the velocity clause does not finish in the normal form (value, gs and dvs clauses of SO3 run at fixed u)
+    cfgs = [(1, "se2"), (2, "se2"), (3, "v2"), (6, "v1")] if tier == "quick" else [(1, "se2"), (2, "se2"), (3, "se2"), (3, "v2"), (6, "v1")]
     t = [("c11", "run_config", (K, g), dict(tier=tier, seed=seed, canary=(K == 2 and g == "se2"))) for (K, g) in cfgs]
     t += [("c11", "run_gs", (K, g), dict(tier=tier, seed=seed)) for (K, g) in CONFIGS]
+    t += [("c11", "run_dgs", (K, g), dict(tier=tier, seed=seed)) for (K, g) in [(1, "se2"), (3, "v2"), (6, "v1")]]
+    # K >= 2 on a non-commutative group: the generalised goals are not identities and the full ones do not finish: undecided, not claimed
     return t
 
 
